@@ -32,5 +32,5 @@ Deliver, in the directory {wt}/_seed/ :
                    code and exits 1 printing FAIL with a short explanation on the CHANGED code. It must exercise the property
                    through the library's public API with the specific input that makes the change manifest.
   3. meta.json   - {{"property": "{prop}", "summary": "<what was changed>", "needs": "<what it needs in order to manifest>", "files": ["<changed files>"]}}
-Verify yourself: demo.py passes with `git stash` (original) and fails with the change applied; the 51 tests pass with the change.
+Verify yourself: demo.py passes on the original (use `git apply -R _seed/patch.diff` then `git apply _seed/patch.diff` - do NOT use `git stash`, the stash is shared with other worktrees) and fails with the change applied; the 51 tests pass with the change.
 Leave the change applied in the worktree when you finish. Report the summary in your final message.""")
